@@ -50,7 +50,7 @@ const c01MaxLen = 70000
 func TestC01(t *testing.T) {
 	m := mon.New(t, "C01")
 	defer m.Done()
-	m.Rule("case = (kind chacha|xchacha, payload length, ad length, dst layout, guard alignment) with random key/nonce/content; payload lengths: every value 0..520 (thorough 0..1100) plus k*64±{0,1,2,15,16,17} up to 2048 (4096), each combined with ad=13 and a rotation through {0,1,12..17,31..33,63..65,127..129,255,256,600} and random ad<=600, plus log-uniform lengths up to 70000; dst layouts: nil, exact capacity, canary prefix, prefix+canary spare, capacity one byte short, in place (Seal dst = pt[:0] with room for the tag, Open dst = ct[:0]), in place behind a 6-byte prefix (dst = buf[:6], input = buf[6:]); every case is executed on each path of the build (asm and generic via VerifSetAVX2; purego build) with payload, ad and dst placed against PROT_NONE pages (end-aligned or start-aligned). A third stream shares ONE AEAD value (New and NewX alternately) between 8 goroutines that each alternate Seal and Open of their own PRNG-determined messages (fixed counts, barrier every 200 operations), every result compared with the precomputed spec result. Oracle: executable RFC 8439 spec (h/ref/aead8439), cross-checked per case against libsodium. distinct = (path, kind, asm length branch, len%16, ad class, dst layout, alignment)")
+	m.Rule("case = (kind chacha|xchacha, payload length, ad length, dst layout, guard alignment) with random key/nonce/content; payload lengths: every value 0..520 (thorough 0..1100) plus k*64±{0,1,2,15,16,17} up to 2048 (4096), each combined with ad=13 and a rotation through {0,1,12..17,31..33,63..65,127..129,255,256,600} and random ad<=600, plus log-uniform lengths up to 70000; dst layouts: nil, exact capacity, canary prefix, prefix+canary spare, capacity one byte short, in place (Seal dst = pt[:0] with room for the tag, Open dst = ct[:0]), in place behind a 6-byte prefix (dst = buf[:6], input = buf[6:]); every case is executed on each path of the build (asm and generic via VerifSetAVX2; purego build) with payload, ad and dst placed against PROT_NONE pages (end-aligned or start-aligned). A third stream shares ONE AEAD value (New and NewX alternately) between 8 goroutines that each alternate Seal and Open of their own PRNG-determined messages (fixed counts, barrier every 200 operations), every result compared with the precomputed spec result. A fourth stream overwrites the caller's key buffer (content and spare capacity) right after New/NewX and between calls, and builds two AEADs from one reused buffer: Seal/Open must keep using the original key. Oracle: executable RFC 8439 spec (h/ref/aead8439), cross-checked per case against libsodium. distinct = (path, kind, asm length branch, len%16, ad class, dst layout, alignment)")
 	m.Assume("h/ref/aead8439 reproduces RFC 8439 §2.3.2/2.4.2/2.5.2/2.6.2/2.8.2/A.3 and draft-xchacha §2.2.1/A.3 vectors (its own unit test); libsodium " + sodiumaead.Version() + " is used as a second witness, a disagreement between the two oracles is reported as inconclusive")
 	m.Assume("guard pages catch out-of-bounds accesses that cross the operand's page boundary side being tested (end- or start-aligned); canaries catch writes inside dst's own capacity")
 
@@ -374,6 +374,7 @@ func TestC01(t *testing.T) {
 		exec(i, r, kind, c.key, c.nonce, c.pt, c.ad, int(i)%7, int(i/7)%2, false, tgt.fam, tgt.name+" acc=0x"+c.target.Text(16))
 	})
 	c01Concurrent(m, ps)
+	c01Retention(m, ps)
 	for _, p := range []string{"asm", "generic", "purego"} {
 		m.Gate(p+"_seal", len(P)*K/2, "Seal executions on the "+p+" path compared with the RFC 8439 spec")
 		m.Gate(p+"_open", len(P)*K/2, "Open executions on the "+p+" path")
